@@ -485,6 +485,7 @@ func c17R5(c *Ctx, id string) {
 			ok2 = !r[closes[0]]
 		}
 		c.check(id+":(*DB).close:funlock-first", cl, cl.Pos(), "unless read-only, funlock is called before the descriptor is closed", ok2, "file.Close reachable without funlock on a read-write database")
+		checkOpenedBeforeOpenFile(c, id)
 		// Close takes the three locks before close()
 		cF := c.fn("bbolt.(*DB).Close")
 		inner := c.theCall(id, cF, "bbolt.(*DB).close")
